@@ -7,7 +7,7 @@ From Onet Require Import Base.Corr Net.Tls Net.TlsProofs Corr.C08.
 (* the property of one recorded run *)
 Definition case_property (c : case) : Prop :=
   match c with
-  | Case lv r s holds t h id _ (Obs hs disp stamp crash _ resumed) =>
+  | Case lv r s holds _ t h id _ (Obs hs disp stamp crash _ resumed) =>
       link_property lv r s holds (effective resumed t h) id hs disp stamp crash
   | CaseConc s holds e _ h _ (Obs hs disp stamp crash _ _) _ =>
       link_property LTls (RDial e) s holds h IdMatch hs disp stamp crash
@@ -35,7 +35,7 @@ Theorem violations_nil_iff (l : list case) :
   violations l = [] <-> forall c, In c l -> case_property c.
 Proof.
   unfold violations, viols. rewrite viol_idx_nil. split; intros H c Hc; specialize (H c Hc);
-    destruct c as [lv r s holds t h id msgs [hs disp stamp crash hp rs]
+    destruct c as [lv r s holds prior t h id msgs [hs disp stamp crash hp rs]
                   |s holds e other h msgs [hs disp stamp crash hp rs] up]; simpl in *;
     now apply prop_check_sound.
 Qed.
